@@ -265,16 +265,76 @@ theorem gen_ivKindE (frb : Bool) (now : Date) : IvKindE (genModel frb now) = tru
 set_option maxRecDepth 20000 in
 theorem gen_digitsOK : DigitsOK { dec := Gen.cp037Dec, repl := Gen.cp037Repl } = true := by decide
 
+/-- the EBCDIC body of a safe canonical record is as long as its ASCII rendering (the prefix is exact) -/
+theorem body_length_safe (m : Model) (e : Enc) (he : e.ebcdic = true) (hIv : IvKindE m = true) (k : Kind) (v : Vals)
+    (h : CanonSafe m k v) : (bodyLn m e k v).length = (lineOf m k (some v)).length := by
+  obtain ⟨hc, hs⟩ := h
+  by_cases hk : k = .ivData
+  · subst hk
+    simp only [if_true] at hs
+    -- from the carrier theorem: the body passes the reader's exact-length test, and has the rendering's length
+    simp only [IvKindE, Bool.and_eq_true] at hIv
+    obtain ⟨⟨⟨_, hlast⟩, _⟩, _⟩ := hIv
+    cases hrev : (m.layout .ivData).write.reverse with
+    | nil => simp [hrev] at hlast
+    | cons last initR =>
+      simp only [hrev, Bool.and_eq_true, beq_iff_eq] at hlast
+      obtain ⟨⟨⟨hli, _⟩, _⟩, hni⟩ := hlast
+      have hws : (m.layout .ivData).write = initR.reverse ++ [last] := by
+        have := congrArg List.reverse hrev
+        simpa using this
+      have hniI : initR.reverse.all (fun f => !f.imageOnly) = true := by
+        simp only [List.all_eq_true, List.mem_reverse] at hni ⊢; exact hni
+      have htext : render m.b64 (m.layout .ivData).write false v = render m.b64 initR.reverse true v := by
+        rw [hws, render_append, render_noimg m.b64 _ v false hniI]
+        simp [render, hli]
+      have hfull : render m.b64 (m.layout .ivData).write true v = render m.b64 initR.reverse true v ++ renderField m.b64 last v := by
+        rw [hws, render_append]; simp [render]
+      have hsafe : (render m.b64 initR.reverse true v).all (safeB m.cm) = true := by
+        have := hs; unfold IvSafe at this; rw [htext] at this; exact this
+      have hfil : ((m.layout .ivData).write.filter (·.imageOnly)) = [last] := by
+        rw [hws, List.filter_append]
+        have : initR.reverse.filter (·.imageOnly) = [] := by
+          simp only [List.filter_eq_nil_iff, List.mem_reverse]
+          intro a ha
+          simp only [List.all_eq_true, Bool.not_eq_true'] at hni
+          simp [hni a ha]
+        simp [this, hli]
+      simp only [bodyLn, he, bodyOf, if_true, htext, encode_ascii _ _ (safe_isAscii m.cm _ hsafe), hfil,
+        Option.map_some, Option.getD_some, List.flatMap_cons, List.flatMap_nil, List.append_nil, lineOf, hfull,
+        List.length_append, List.length_map]
+  · simp only [hk, if_false] at hs
+    rw [bodyLn_ebcdic m e he k hk v hs, List.length_map]
+
+theorem hbody_of_canonE (m : Model) (e : Enc) (he : e.ebcdic = true) (hIv : IvKindE m = true) (f : File Vals)
+    (h : CanonFileE m f) :
+    ∀ kr ∈ f.flatten, ∀ v, kr.2 = some v → (bodyLn m e kr.1 v).length = (lineOf m kr.1 (some v)).length := by
+  intro kr hkr v hv
+  rw [flatten_eq_fileRecs m e f (treeWF_of_canonE m f h)] at hkr
+  simp only [List.mem_append, List.mem_singleton, List.mem_map, List.cons_append, List.nil_append, List.mem_cons] at hkr
+  rcases hkr with hkr | ⟨r, hr, hru⟩ | hkr | hkr
+  · subst hkr
+    simp only [Option.some.injEq] at hv; subst hv
+    rw [bodyLn_ebcdic m e he .fileHeader (by simp) _ h.hdrSafe, List.length_map]
+  · have hP := recP_flatMap (CanonSafe m) f.cashLetters (clRecs (bodyLn m e))
+      (fun cl hcl => recP_cashLetter (bodyLn m e) (CanonSafe m) m cl (h.cashLetters cl hcl)) r hr
+    subst hru
+    simp only [unrec, Option.some.injEq] at hv
+    subst hv
+    exact body_length_safe m e he hIv _ _ hP
+  · subst hkr
+    simp only [Option.some.injEq] at hv; subst hv
+    rw [bodyLn_ebcdic m e he .fileControl (by simp) _ h.ctlSafe, List.length_map]
+  · cases hkr
+
 /-- **C01, end to end on the regenerated model, EBCDIC, length-prefixed**: a canonical file of text the regenerated
 CP037 table carries (record 52: all but the image bytes, which travel raw and are arbitrary), accepted by the model
 writer, reads back as itself -/
 theorem C01_canonical_lp_ebcdic (frb : Bool) (now : Date) (e : Enc) (hlp : e.lp = true) (he : e.ebcdic = true)
     (f : File Vals) (bytes : Bytes) (hc : CanonFileE (genModel frb now) f)
-    (hbody : ∀ kr ∈ f.flatten, ∀ v, kr.2 = some v →
-      (bodyLn (genModel frb now) e kr.1 v).length = (lineOf (genModel frb now) kr.1 (some v)).length)
     (hw : writeFile (genModel frb now) e f = some bytes) :
     readFile (genModel frb now) e bytes = (f, none) :=
-  C01_write_read_lp _ e f bytes hlp hw (treeWF_of_canonE _ f hc) hbody
+  C01_write_read_lp _ e f bytes hlp hw (treeWF_of_canonE _ f hc) (hbody_of_canonE _ e he (gen_ivKindE frb now) f hc)
     (fileOK_of_canonE _ e he gen_digitsOK (gen_kindOK frb now) (gen_ivKindE frb now) (gen_endsOK frb now) f hc)
 
 
